@@ -368,6 +368,17 @@ Section LfuBridge.
                   (fun s e _ => g_step_ok s e) h (lfdl_init cap 1 1 0)) as Q.
     rewrite <- fu_run_is_run_res, D in Q. apply req_ok. apply Q. clear. induction h; constructor; auto.
   Qed.
+
+  (* ---- the constructor, translated (member initialisers + body): it builds the literal machine's initial state,
+     so the whole-history theorem starts from what the source constructs ---- *)
+  Lemma g_init_ok (cap : nat) : (g_init cap : lfdl K V) = lfdl_init cap 1 1 0.
+  Proof. reflexivity. Qed.
+  Theorem generated_lfu_constructed_no_UB_on_any_history : forall cap (h : list (ev K V)),
+      1 <= cap -> Forall (fun e => (0 <= e_now e)%Z) h ->
+      exists l', run_res g_step (g_init cap) h = Ok (l', snd (run lfu_step (lfu_init cap) h)) /\
+                 fu_rep l' (fst (run lfu_step (lfu_init cap) h)).
+  Proof. intros cap h Hc Hn. rewrite g_init_ok. apply generated_lfu_no_UB_on_any_history; auto. Qed.
 End LfuBridge.
 
 Print Assumptions generated_lfu_no_UB_on_any_history.
+Print Assumptions generated_lfu_constructed_no_UB_on_any_history.
